@@ -15,6 +15,8 @@ import (
 
 func acceptAll(int) bool { return true }
 
+var debugNet *chanNet // the network of the case being replayed with VERIF_DEBUG set
+
 // decision is one adversarial scheduling step over the held messages.
 type decision struct {
 	Act string `json:"act"` // deliver, dup, drop, tick
@@ -30,6 +32,11 @@ type c07case struct {
 	// KeepInFlight: what the old instance of B had sent and the network still holds at the moment of the restart
 	// stays in the network (packets outlive the process that sent them) instead of vanishing with it
 	KeepInFlight bool `json:"keep_in_flight,omitempty"`
+	// DelayA: A's first Send starts this many microseconds late (it may then begin in the middle of the prefix or
+	// after the wire became reliable)
+	DelayA int `json:"delay_a_us,omitempty"`
+	// LateSendB: the new instance of B has something to send only once the prefix is over (it first hears from A)
+	LateSendB bool `json:"late_send_b,omitempty"`
 }
 
 func (c c07case) String() string {
@@ -40,6 +47,12 @@ func (c c07case) String() string {
 	keep := ""
 	if c.KeepInFlight {
 		keep = "(old instance's packets stay in flight)"
+	}
+	if c.DelayA > 0 {
+		keep += fmt.Sprintf("(A's Send %dus late)", c.DelayA)
+	}
+	if c.LateSendB {
+		keep += "(new instance sends after the prefix)"
 	}
 	return fmt.Sprintf("first=%s backoff=%dms restart=%d%s prefix=%s", c.First, c.Backoff, c.Restart, keep, strings.Join(ps, ","))
 }
@@ -88,6 +101,13 @@ func (nt *chanNet) heldNames() string {
 
 // runC07 executes one convergence case.
 func runC07(c c07case) (res c07result) {
+	if debugWire {
+		defer func() {
+			if res.problem != "" {
+				res.problem += "\nwire log:\n" + strings.Join(debugNet.log[:min(len(debugNet.log), 40)], "\n")
+			}
+		}()
+	}
 	backoff := time.Duration(c.Backoff) * time.Millisecond
 	threshold := 50 * backoff
 	if threshold < 2*time.Second {
@@ -97,6 +117,7 @@ func runC07(c c07case) (res c07result) {
 	cfg := chanCfg{backoff: backoff, keepAlive: time.Minute, rekey: time.Hour, reject: 2 * ev.Extended(threshold)}
 	nt := newNet()
 	defer nt.close()
+	debugNet = nt
 	nt.hold = true
 	a := nt.addNode("A", kA, acceptAll, cfg)
 	b := nt.addNode("B", kB, acceptAll, cfg)
@@ -110,7 +131,16 @@ func runC07(c c07case) (res c07result) {
 	startSend := func(n *node, tag string) {
 		p := pending{n, make(chan error, 1)}
 		pend = append(pend, p)
-		go func() { p.done <- n.send(tag, 10*threshold+5*time.Second) }()
+		delay := time.Duration(0)
+		if n == a && tag == "first" {
+			delay = time.Duration(c.DelayA) * time.Microsecond
+		}
+		go func() {
+			if delay > 0 {
+				time.Sleep(delay)
+			}
+			p.done <- n.send(tag, 10*threshold+5*time.Second)
+		}()
 	}
 	if strings.Contains(c.First, "A") {
 		startSend(a, "first")
@@ -164,6 +194,9 @@ func runC07(c c07case) (res c07result) {
 		}
 		nt.mu.Unlock()
 		// whoever was waiting on the old instance gave up with it; the new instance has something to say
+		if c.LateSendB {
+			return
+		}
 		before := nt.heldLen()
 		startSend(b, "after-restart")
 		// the new instance's hello is on the wire (signed) before anything else happens, so that what is delivered
@@ -245,6 +278,10 @@ func runC07(c c07case) (res c07result) {
 	if c.Restart == len(c.Prefix) {
 		restartB()
 	}
+	if restarted && c.LateSendB {
+		startSend(b, "after-restart")
+		time.Sleep(2 * time.Millisecond)
+	}
 	res.overtaking = sawDataBeforeDone
 	res.heldAfter = nt.heldLen()
 	// the network becomes reliable
@@ -270,7 +307,20 @@ func runC07(c c07case) (res c07result) {
 				// a survivor that did (the old instance's last message was still in flight and arrived) is another history
 				res.knownKey = ""
 			}
-			if restarted && p.n == a && keyIndex(a.ch.RemoteKey()) < 0 {
+			// Second recorded finding: with a packet of the old instance still in flight, both sides can end up as
+			// responders of hellos whose initiator sessions no longer exist (each answers with RespHello, nobody
+			// holds the matching initiator state), and nothing renews the handshake before RejectAfter.
+			if restarted && c.KeepInFlight && keyIndex(a.ch.RemoteKey()) < 0 && keyIndex(b.ch.RemoteKey()) < 0 {
+				lastIsRespHello := func(n *node) bool {
+					n.mu.Lock()
+					defer n.mu.Unlock()
+					return len(n.emitted) > 0 && counterOf(n.emitted[len(n.emitted)-1]) == 1
+				}
+				if lastIsRespHello(a) && lastIsRespHello(b) {
+					res.knownKey = "mutual-responders-after-restart"
+				}
+			}
+			if res.knownKey == "" && restarted && p.n == a && keyIndex(a.ch.RemoteKey()) < 0 {
 				a.mu.Lock()
 				for _, m := range a.emitted {
 					if counterOf(m) == 2 {
@@ -314,11 +364,7 @@ func runC07(c c07case) (res c07result) {
 func TestC07Converge(t *testing.T) {
 	const sub = "C07.converge_after_faults"
 	ev.Rule(sub, "rapid: two real channels on a harness-owned wire that holds every message; who sends first in {A, B, both}; handshake backoff 10-40 ms; an adversarial prefix of up to 6 decisions, each {deliver, deliver-and-keep-a-copy, drop} applied to a chosen held message or one retransmission interval passing; optional restart of B (fresh channel, same key) before a generated step, the old instance's packets either vanishing with it or staying in flight; then the wire switches to prompt in-order delivery. Oracle: every pending Send returns nil within max(50 x backoff, 2 s) of the switch (reject-after is 10x that), then a tagged message flows each way. non-trivial = prefix with a drop, duplicate, out-of-order delivery, data overtaking the last handshake message, simultaneous initiation or a restart; distinct by case description")
-	var replay c07case
-	if ev.ReplayCase(sub, &replay) {
-		if r := runC07(replay); r.problem != "" && !(r.knownKey != "" && ev.Known(sub, "C07", r.knownKey)) {
-			t.Fatalf("%s\ncase %v\ntrace %v", r.problem, replay, r.trace)
-		}
+	if replayC07(t) {
 		return
 	}
 	rapid.Check(t, func(t *rapid.T) {
@@ -341,6 +387,10 @@ func TestC07Converge(t *testing.T) {
 		if rapid.IntRange(0, 3).Draw(t, "withRestart") == 0 {
 			c.Restart = rapid.IntRange(0, len(c.Prefix)).Draw(t, "restartAt")
 			c.KeepInFlight = rapid.Bool().Draw(t, "oldPacketsStayInFlight")
+			if c.KeepInFlight {
+				c.DelayA = rapid.SampledFrom([]int{0, 0, 1000, 10000}).Draw(t, "delayAMicros")
+				c.LateSendB = rapid.IntRange(0, 3).Draw(t, "lateSendB") == 0
+			}
 		}
 		c.Direct = rapid.Bool().Draw(t, "direct")
 		r := runC07(c)
@@ -373,6 +423,18 @@ func TestC07Converge(t *testing.T) {
 	})
 }
 
+// replayC07 re-executes a saved case (the enumerators save theirs in the same form).
+func replayC07(t *testing.T) bool {
+	var replay c07case
+	if !ev.ReplayCase("C07.converge_after_faults", &replay) {
+		return false
+	}
+	if r := runC07(replay); r.problem != "" && !(r.knownKey != "" && ev.Known("C07.converge_after_faults", "C07", r.knownKey)) {
+		t.Fatalf("%s\ncase %v\ntrace %v", r.problem, replay, r.trace)
+	}
+	return true
+}
+
 // TestC07RestartPoints enumerates the moments at which the peer can be replaced during and right after a handshake,
 // with the old instance's packets still in the network.
 func TestC07RestartPoints(t *testing.T) {
@@ -382,6 +444,9 @@ func TestC07RestartPoints(t *testing.T) {
 		tail = 3
 	}
 	ev.Rule(sub, fmt.Sprintf("exhaustive: first sender in {A, B, AB} x k = 0..5 in-order deliveries x restart of B (fresh channel, same key, with something to send) with the old instance's undelivered packets vanishing or staying in flight x every sequence of up to %d further decisions {deliver held message 0..2} (old RespHello / RespDone / data reaching the survivor after the restart, the new instance's hello before or after them); then the wire is reliable; synchronous delivery, backoff 40 ms. Oracle as converge_after_faults (instances of the recorded finding restart-while-initiator-awaits-RespDone are counted, not judged). non-trivial = an old instance's packet delivered after the restart; every path distinct", tail))
+	if replayC07(t) {
+		return
+	}
 	var jobs []c07case
 	var rec func(base c07case, depth int)
 	rec = func(base c07case, depth int) {
@@ -476,6 +541,9 @@ func TestC07PrefixTree(t *testing.T) {
 		depth = 4
 	}
 	ev.Rule(sub, fmt.Sprintf("exhaustive: the decision tree of adversarial prefixes up to depth %d for first sender in {A, AB}: at each step every held message x {deliver, duplicate, drop}; synchronous delivery and a 40 ms backoff keep the held set deterministic; oracle as converge_after_faults; every path is distinct; non-trivial = path containing a drop, duplicate or out-of-order delivery", depth))
+	if replayC07(t) {
+		return
+	}
 	acts := []string{"deliver", "dup", "drop"}
 	var total, nontriv int64
 	var mu sync.Mutex
